@@ -291,3 +291,17 @@ package vals
 //@   ensures istype(a, *big.Int) && fitsint(bigval(a.(*big.Int))) ==> istype(result, int) && result.(int) == bigval(a.(*big.Int))
 //@   ensures istype(a, *big.Int) && !fitsint(bigval(a.(*big.Int))) ==> istype(result, *big.Int) && result.(*big.Int) == a.(*big.Int)
 //@   ensures istype(a, int) || istype(a, float64) || istype(a, string) || istype(a, bool) ==> result === a
+
+// ---------------------------------------------------------------------------
+// C12: conversion to float64 before inexact arithmetic. ints convert by the
+// IEEE round-to-nearest-even int-to-float conversion, floats are unchanged, a
+// big integer that does not fit int64 overflows to the infinity of its sign,
+// and a rational converts to exactly what big.Rat.Float64 returns for it (the
+// nearest double - trusted, left abstract as ratfloat).
+//@ func verifToFloat
+//@   props C12
+//@   nosafety
+//@   ensures [int] istype(n, int) ==> result === tofloat(n.(int))
+//@   ensures [float-unchanged] istype(n, float64) ==> result === n.(float64)
+//@   ensures [rational-nearest-double] istype(n, *big.Rat) ==> result === ratfloat(n.(*big.Rat))
+//@   ensures [huge-integer-overflows-by-sign] istype(n, *big.Int) && (bigval(n.(*big.Int)) > MaxInt64 || bigval(n.(*big.Int)) < MinInt64) ==> isinf(result) && (result > tofloat(0)) == (bigval(n.(*big.Int)) > 0)
